@@ -153,6 +153,8 @@ def run(ctx):
     opt_rule(ctx, res)
     from rules import hist
     hist.run(ctx, res, "C08")       # composition: histories through the public API against the reference model (rules/hist.py)
+    from rules import scale
+    scale.run(ctx, res, 'C08')      # the same on graphs whose collections have the sizes the tree names (rules/scale.py)
     hist.run_sequences(ctx, res, "C08", "universes", 4 if ctx.thorough else 3, small=True)
     common.vacuity(res, "SEQUENCE", 500)
     common.vacuity(res, "HISTORY", 2500)
